@@ -14,6 +14,7 @@ import (
 	"errors"
 	"fmt"
 	"os"
+	"runtime"
 	"sync"
 	"sync/atomic"
 	"testing"
@@ -235,33 +236,96 @@ func TestVerifC18Seq(t *testing.T) {
 	}
 }
 
-// ---- concurrent queries (run with -race) ----
+// ---- concurrent queries (quick tier without, thorough tier with -race) ----
 
 type c18conc struct {
-	DL      string `json:"dl"`
-	CL      int    `json:"cl"`
-	DN      string `json:"dn"`
-	CN      int    `json:"cn"`
-	G       int    `json:"g"`       // goroutines
-	N       int    `json:"n"`       // queries per goroutine
-	Addrs   int    `json:"addrs"`   // address universe
-	Seed    int64  `json:"seed"`
-	Clearer bool   `json:"clearer"` // a goroutine calling ClearExpiredCache concurrently
+	DL       string `json:"dl"`
+	CL       int    `json:"cl"`
+	DN       string `json:"dn"`
+	CN       int    `json:"cn"`
+	G        int    `json:"g"`        // goroutines
+	N        int    `json:"n"`        // queries per goroutine
+	Addrs    int    `json:"addrs"`    // address universe (shared by all goroutines unless Distinct)
+	Distinct bool   `json:"distinct"` // every goroutine queries its own, all different, addresses (Add-heavy)
+	Rounds   int    `json:"rounds"`   // fresh tester per round; the worst round is reported
+	Seed     int64  `json:"seed"`
+	Clearer  bool   `json:"clearer"` // a goroutine calling ClearExpiredCache concurrently
 }
 
 type c18concRes struct {
-	Panic     string `json:"panic"`
-	InitErr   bool   `json:"init_err"`
-	MaxLenL   int    `json:"maxl"` // maximum Len() sampled while the workers ran
-	MaxLenN   int    `json:"maxn"`
-	FinalLenL int    `json:"finl"` // Len() after all workers returned
-	FinalLenN int    `json:"finn"`
-	Wrong     int    `json:"wrong"` // served verdicts that no measurement of that address ever produced
-	Queries   int    `json:"queries"`
-	Probes    int64  `json:"probes"`
+	Panic        string `json:"panic"`
+	InitErr      bool   `json:"init_err"`
+	Procs        int    `json:"procs"`
+	MaxLenL      int    `json:"maxl"` // maximum Len() sampled while the workers ran
+	MaxLenN      int    `json:"maxn"`
+	FinalLenL    int    `json:"finl"` // Len() after all workers returned (maximum over the rounds)
+	FinalLenN    int    `json:"finn"`
+	Leaked       int    `json:"leaked"`        // after quiescence: verdict-map keys that the recency list does not hold
+	LeakedServed int    `json:"leaked_served"` // ... of which a query was answered from the cache without a probe
+	LeakRound    int    `json:"leak_round"`
+	LeakKey      string `json:"leak_key"`
+	Wrong        int    `json:"wrong"` // served verdicts that no measurement of that address ever produced
+	Queries      int    `json:"queries"`
+	Probes       int64  `json:"probes"`
+}
+
+func c18leaked(c cache) []string {
+	lc, ok := c.(*lruCache)
+	if !ok || lc == nil {
+		return nil
+	}
+	var out []string
+	lc.m.RLock()
+	for k := range lc.ipCache {
+		if !lc.lru.Contains(k) {
+			out = append(out, k)
+		}
+	}
+	lc.m.RUnlock()
+	return out
 }
 
 func c18runConc(c c18conc) (r c18concRes) {
+	r.Procs = runtime.GOMAXPROCS(0)
+	r.LeakRound = -1
+	rounds := c.Rounds
+	if rounds <= 0 {
+		rounds = 1
+	}
+	for round := 0; round < rounds; round++ {
+		one := c18concRound(c, round)
+		if one.InitErr {
+			r.InitErr = true
+			return
+		}
+		if one.Panic != "" && r.Panic == "" {
+			r.Panic = one.Panic
+		}
+		if one.MaxLenL > r.MaxLenL {
+			r.MaxLenL = one.MaxLenL
+		}
+		if one.MaxLenN > r.MaxLenN {
+			r.MaxLenN = one.MaxLenN
+		}
+		if one.FinalLenL > r.FinalLenL {
+			r.FinalLenL = one.FinalLenL
+		}
+		if one.FinalLenN > r.FinalLenN {
+			r.FinalLenN = one.FinalLenN
+		}
+		if one.Leaked > 0 && r.LeakRound < 0 {
+			r.LeakRound, r.LeakKey = round, one.LeakKey
+		}
+		r.Leaked += one.Leaked
+		r.LeakedServed += one.LeakedServed
+		r.Wrong += one.Wrong
+		r.Queries += one.Queries
+		r.Probes += one.Probes
+	}
+	return
+}
+
+func c18concRound(c c18conc, round int) (r c18concRes) {
 	lt, err := New(&Config{CacheDuration: c.DL, CacheCapacity: c.CL, CacheDurationNonLive: c.DN, CacheCapacityNonLive: c.CN})
 	if err != nil {
 		r.InitErr = true
@@ -271,10 +335,14 @@ func c18runConc(c c18conc) (r c18concRes) {
 	if !ok {
 		return
 	}
-	addrs := make([]string, c.Addrs)
-	verdict := map[string]bool{}
+	nAddrs := c.Addrs
+	if c.Distinct {
+		nAddrs = c.G * c.N
+	}
+	addrs := make([]string, nAddrs)
+	verdict := make(map[string]bool, nAddrs)
 	for i := range addrs {
-		addrs[i] = fmt.Sprintf("198.51.100.%d", i)
+		addrs[i] = fmt.Sprintf("198.51.%d.%d", i/250, i%250+1)
 		verdict[addrs[i]+":443"] = (i%3 != 0) // fixed per address: every measurement of an address agrees
 	}
 	var probes int64
@@ -287,7 +355,10 @@ func c18runConc(c c18conc) (r c18concRes) {
 	var pmu sync.Mutex
 	stop := make(chan struct{})
 	var maxL, maxN int64
-	sampler := func() {
+	var aux sync.WaitGroup
+	aux.Add(1)
+	go func() {
+		defer aux.Done()
 		for {
 			select {
 			case <-stop:
@@ -301,17 +372,20 @@ func c18runConc(c c18conc) (r c18concRes) {
 			if n > atomic.LoadInt64(&maxN) {
 				atomic.StoreInt64(&maxN, n)
 			}
+			runtime.Gosched()
 		}
-	}
-	go sampler()
+	}()
 	if c.Clearer {
+		aux.Add(1)
 		go func() {
+			defer aux.Done()
 			for {
 				select {
 				case <-stop:
 					return
 				default:
 					clt.ClearExpiredCache()
+					runtime.Gosched()
 				}
 			}
 		}()
@@ -327,10 +401,15 @@ func c18runConc(c c18conc) (r c18concRes) {
 					pmu.Unlock()
 				}
 			}()
-			x := uint64(c.Seed)*2654435761 + uint64(g)*40503 + 1
+			x := uint64(c.Seed)*2654435761 + uint64(g)*40503 + uint64(round)*7919 + 1
 			for i := 0; i < c.N; i++ {
-				x = x*6364136223846793005 + 1442695040888963407
-				a := addrs[int((x>>33)%uint64(len(addrs)))]
+				var a string
+				if c.Distinct {
+					a = addrs[g*c.N+i]
+				} else {
+					x = x*6364136223846793005 + 1442695040888963407
+					a = addrs[int((x>>33)%uint64(len(addrs)))]
+				}
 				live, _ := clt.PhantomIsLive(a, 443)
 				if live != verdict[a+":443"] {
 					atomic.AddInt64(&wrong, 1)
@@ -340,10 +419,25 @@ func c18runConc(c c18conc) (r c18concRes) {
 	}
 	wg.Wait()
 	close(stop)
+	aux.Wait() // quiescence: nothing is in flight any more
 	r.MaxLenL, r.MaxLenN = int(atomic.LoadInt64(&maxL)), int(atomic.LoadInt64(&maxN))
 	r.FinalLenL, r.FinalLenN = c18len(clt.ipCacheLive), c18len(clt.ipCacheNonLive)
 	r.Wrong = int(wrong)
 	r.Queries = c.G * c.N
+	// evicted entries must be gone: every verdict still stored must be tracked by the recency list ...
+	leaked := append(c18leaked(clt.ipCacheLive), c18leaked(clt.ipCacheNonLive)...)
+	r.Leaked = len(leaked)
+	if len(leaked) > 0 {
+		r.LeakKey = leaked[0]
+	}
+	// ... and must not be answered from the cache
+	for _, k := range leaked {
+		before := atomic.LoadInt64(&probes)
+		_, err := clt.PhantomIsLive(k, 443)
+		if errors.Is(err, ErrCachedPhantom) && atomic.LoadInt64(&probes) == before {
+			r.LeakedServed++
+		}
+	}
 	r.Probes = atomic.LoadInt64(&probes)
 	return
 }
@@ -357,9 +451,80 @@ func TestVerifC18Conc(t *testing.T) {
 	if err := json.Unmarshal(raw, &cases); err != nil {
 		t.Fatal(err)
 	}
+	// the interleavings inside Add / Lookup need real parallelism
+	if runtime.GOMAXPROCS(0) < 8 {
+		defer runtime.GOMAXPROCS(runtime.GOMAXPROCS(8))
+	}
 	res := make([]c18concRes, len(cases))
 	for i, c := range cases {
 		res[i] = c18runConc(c)
+	}
+	out, _ := json.Marshal(res)
+	if err := os.WriteFile(os.Getenv("VERIF_OUT"), out, 0o644); err != nil {
+		t.Fatal(err)
+	}
+}
+
+// ---- order of the atomic sections (no hook: the driver holds the verdict-map lock) ----
+//
+// While lruCache.m is write-locked by the driver, an operation that starts with its
+// map section blocks before it has touched the recency list. Observed per operation:
+// did the recency list change while the operation was blocked on the map lock?
+
+type c18section struct {
+	Op          string `json:"op"`           // add | lookup | clear
+	ListChanged bool   `json:"list_changed"` // recency list differs from before although the map lock was never released
+	MapChanged  bool   `json:"map_changed"`
+	Returned    bool   `json:"returned"` // the operation finished although the map lock was held
+	AfterInMap  bool   `json:"after_in_map"`
+	AfterInList bool   `json:"after_in_list"`
+}
+
+func c18keys(lc *lruCache) string { return fmt.Sprint(lc.lru.Keys()) }
+
+func TestVerifC18Sections(t *testing.T) {
+	if os.Getenv("VERIF_OUT") == "" {
+		t.Skip("no output file")
+	}
+	var res []c18section
+	for _, op := range []string{"add", "lookup", "clear"} {
+		lc := newLRUCache(time.Hour, 2)
+		lc.Add("a", &cacheElement{cachedTime: time.Now()})
+		lc.Add("b", &cacheElement{cachedTime: time.Now().Add(-2 * time.Hour)}) // b is overdue
+		key := map[string]string{"add": "k", "lookup": "a", "clear": "b"}[op]
+		lc.m.Lock()
+		beforeList, beforeMap := c18keys(lc), len(lc.ipCache)
+		done := make(chan struct{})
+		go func() {
+			defer close(done)
+			switch op {
+			case "add":
+				lc.Add("k", &cacheElement{cachedTime: time.Now()})
+			case "lookup":
+				lc.Lookup("a") // fresh: refreshes recency (a is the oldest entry of the list)
+			case "clear":
+				lc.ClearExpired()
+			}
+		}()
+		var s c18section
+		s.Op = op
+		select {
+		case <-done:
+			s.Returned = true
+		case <-time.After(150 * time.Millisecond):
+		}
+		s.ListChanged = c18keys(lc) != beforeList
+		s.MapChanged = len(lc.ipCache) != beforeMap
+		lc.m.Unlock()
+		select {
+		case <-done:
+		case <-time.After(5 * time.Second):
+		}
+		lc.m.RLock()
+		_, s.AfterInMap = lc.ipCache[key]
+		lc.m.RUnlock()
+		s.AfterInList = lc.lru.Contains(key)
+		res = append(res, s)
 	}
 	out, _ := json.Marshal(res)
 	if err := os.WriteFile(os.Getenv("VERIF_OUT"), out, 0o644); err != nil {
